@@ -17,6 +17,17 @@ Together with the driver's comparison of the implementation's observation text w
 record the driver answers `A`, the monitor ran on exactly `obsOf r` and cannot have fired; a `V`
 always comes with a `D`.  What a `V` then means is Sound.lean.
 
+Monitor repairs made while bridging (the typed monitor differs from the untyped one it replaces in
+two places; the driver's output on the recorded streams of the unchanged tree and of the eight seeded
+changes is byte-identical):
+* the authorization server "asked last" (`lastIssuer`) is the issuer of the LAST metadata GET; it was
+  the last element of the de-duplicated list of issuers, i.e. the issuer whose FIRST request came
+  latest — a notion with no counterpart in the property;
+* the 2025-03-26 fall-back is backed (`all4xx`) when every metadata location of the issuer was
+  requested and every requested one answered 4xx; it was "as many requests as locations", a count
+  standing for that (a location requested twice passed it).
+`eraseDups` in the issuer clause was dropped (it never changed the first hit).
+
 Well-formedness (`MCase.wf`, checked by the driver on every record — a record outside it is
 answered `bad-op`): the request URL is a parsed URL (`req.URL` is a `*url.URL`), and the challenge's
 `resource_metadata` URL is not itself spelled like an authorization-server metadata location.  Both
@@ -777,6 +788,12 @@ theorem histAfter_model (h : Handler) (rs : List TRound) (hwf : ∀ r ∈ rs, (r
 /-- Non-vacuity: the trace has one observation per round. -/
 theorem modelTrace_length (h : Handler) (rs : List TRound) : (modelTrace h rs).length = rs.length := by
   rw [modelTrace_eq]; simp
+
+/-! ### The challenge stream -/
+
+/-- The `wwwfuzz` clause does not fire on the model's observation (`www` records have no clause: they
+are judged by equality with the Lean parser alone). -/
+theorem fuzz_accepts_model : chkFuzz fuzzOk = false := by decide
 
 /-! ### Non-vacuity, and why well-formedness is needed -/
 
